@@ -246,7 +246,7 @@ def run_records(ctx, focus, n_random, exhaustive_n=0, field=0):
         res = C.run_case(ctx, rec, s, j)
         judge(ctx, focus, res, C.replay_input(rec, s, j), ["events", "random", "dense", "layout"][kind])
     # rises sitting exactly on a decimal threshold (rounding boundary of threshold x step)
-    for k in range(60 if n_random <= 400 else 600):
+    for k in range(120 if n_random <= 400 else 800):
         rec, s, j = gen.boundary_record(rng)
         res = C.run_case(ctx, rec, s, j)
         judge(ctx, focus, res, C.replay_input(rec, s, j), "boundary")
@@ -266,6 +266,14 @@ def run_records(ctx, focus, n_random, exhaustive_n=0, field=0):
                           "removed": sorted(rec.removed)[:3]}, "s": s, "j": j,
                "note": "too long to inline: regenerate with the seed (the replay re-runs the stream)"}
         judge(ctx, focus, res, inp, "huge")
+    if n_random > 400 or focus == "C04":
+        # (about 40 s; thorough tier, and the quick tier of C04): one record of 300,000 samples with thousands of dry stretches
+        s, j = gen.pick_thresholds(rng)
+        rec = gen.giant_record(rng, s, j)
+        res = C.run_case(ctx, rec, s, j, want_model="by-stretch")
+        inp = {"record": {"generator": "gen.giant_record", "seed": ctx.seed, "dt": rec.dt, "t0": rec.t0, "n": rec.n}, "s": s, "j": j,
+               "note": "too long to inline: regenerate with the seed (the replay re-runs the stream)"}
+        judge(ctx, focus, res, inp, "giant")
     if exhaustive_n:
         t0 = 1500000000 // 1800 * 1800
         for n in range(1, exhaustive_n + 1):
